@@ -118,6 +118,49 @@ Dispatch(c, orc, a, b) ==
        ELSE IF Len(want) # Len(b.log) THEN "CoreExecutesFilteredProgram:count"
        ELSE "ok"
 
+(* ---- C13: cross-core dependencies are separated by a cluster barrier (trace form) ---- *)
+IsBarrier(e) == e.k = "op" /\ e.n = "snax.cluster_sync_op"
+RECURSIVE RootOf(_, _)
+RootOf(uf, v) ==    \* views alias the buffer they are taken from
+  IF v > 1000000 /\ v - 1000000 <= Len(uf) /\ uf[v - 1000000][1][1] = "subview" THEN RootOf(uf, uf[v - 1000000][1][3][1]) ELSE v
+Roots(uf, vals) == {RootOf(uf, vals[i]) : i \in DOMAIN vals}
+NIns(e) == IF "iv" \in DOMAIN e /\ Len(e.iv) >= 1 THEN e.iv[1] ELSE Len(e.vals)
+Reads(uf, e) ==
+  IF e.k # "op" THEN {}
+  ELSE IF e.n = "memref.copy" THEN Roots(uf, SubSeq(e.vals, 1, 1))
+  ELSE IF e.n = "memref.dealloc" THEN {}
+  ELSE IF e.n \in {"linalg.generic", "dart.operation", "dart.schedule", "dart.access_pattern", "snax_stream.streaming_region"}
+       THEN Roots(uf, SubSeq(e.vals, 1, NIns(e)))
+  ELSE Roots(uf, e.vals)
+Writes(uf, e) ==
+  IF e.k # "op" THEN {}
+  ELSE IF e.n = "memref.copy" THEN Roots(uf, SubSeq(e.vals, 2, 2))
+  ELSE IF e.n = "memref.dealloc" THEN Roots(uf, e.vals)
+  ELSE IF e.n \in {"linalg.generic", "dart.operation", "dart.schedule", "dart.access_pattern", "snax_stream.streaming_region"}
+       THEN Roots(uf, SubSeq(e.vals, NIns(e) + 1, Len(e.vals)))
+  ELSE {}
+Conflict(uf, e1, e2) ==
+  \/ Writes(uf, e1) \cap (Reads(uf, e2) \cup Writes(uf, e2)) # {}
+  \/ Reads(uf, e1) \cap Writes(uf, e2) # {}
+(* memrefs only: integer operands (indices) are not buffers *)
+BufferConflict(uf, e1, e2, isbuf(_)) == \E x \in (Writes(uf, e1) \cap (Reads(uf, e2) \cup Writes(uf, e2))) \cup (Reads(uf, e1) \cap Writes(uf, e2)) : isbuf(x)
+
+TraceNoRace(log, uf, xk) ==
+  \A i, j \in DOMAIN log :
+    (i < j /\ OpClass(log[i], xk) \in {"dm", "compute"} /\ OpClass(log[j], xk) # OpClass(log[i], xk)
+       /\ BufferConflict(uf, log[i], log[j], LAMBDA x : x >= 900000))
+    => \E k \in (i + 1)..(j - 1) : IsBarrier(log[k])
+
+RECURSIVE DropBarriers(_, _)
+DropBarriers(log, k) == IF k > Len(log) THEN <<>> ELSE (IF IsBarrier(log[k]) THEN <<>> ELSE <<log[k]>>) \o DropBarriers(log, k + 1)
+
+Barriers(c, orc, a, b) ==
+  IF b.fault # "none" THEN "B.fault:" \o b.fault
+  ELSE LET la == DropBarriers(a.log, 1)  lb == DropBarriers(b.log, 1) IN
+       IF Len(la) # Len(lb) \/ FirstBad(la, lb, EffectEventOK) # 0 THEN "OnlyBarriersInserted"
+       ELSE IF ~TraceNoRace(b.log, b.uf, c.xk) THEN "BarrierBetweenCrossCoreDependency"
+       ELSE "ok"
+
 Judge(contract, c, orc, a, b) ==
   IF a.fault # "none" THEN "skipA:" \o a.fault
   ELSE CASE contract \in {"dedup", "overlap", "trace"} -> AccfgObs(a, b)
@@ -127,5 +170,6 @@ Judge(contract, c, orc, a, b) ==
          [] contract = "regfile" -> RegFile(c, a, b)
          [] contract = "dma" -> DmaCopy(c, orc, a, b)
          [] contract = "dispatch" -> Dispatch(c, orc, a, b)
+         [] contract = "barriers" -> Barriers(c, orc, a, b)
          [] OTHER -> "machinery:unknown-contract"
 =============================================================================
